@@ -620,8 +620,8 @@ func enumeratePolicy(emit func(proto.Case)) {
 
 var keyPool = []string{"x", "a", "b", "x-lunar", "X", "a-b", "content-type", "é"}
 var valPool = []string{"1", "2", "", "v", "a b", "k=v;w|z", "100%", "é", "http://h/p?q", "t:1:2"}
-var unsafeKeys = []string{"a:b", "k\nz", ":"}
-var unsafeVals = []string{"v\ninjected:1", "\n", "a\n\nb"}
+var unsafeKeys = []string{"a:b", "k\nz", ":", "", "bad name", "k\r", "x(y)"}
+var unsafeVals = []string{"v\ninjected:1", "\n", "a\n\nb", "v\r\nx:1", "\r"}
 var strPool = []string{"", "", "h1", "/p", "q=1&r=2", "body", "a b\tc", "%e", "_", "x|y;z"}
 var statuses = []int{0, 200, 404, 429, 503, -1}
 
